@@ -3,7 +3,7 @@
  * job lines:
  *   base <blob>
  *   seq <ops>        one case; ops comma separated: T<int> type pin, D<hex of the ASCII string> digest pin ("D-" empty),
- *                    L<int> length pin, V validate lead, R read lead, H read header
+ *                    L<int> length pin, V validate lead, R read lead, H read header, I zck_init_adv_read() again on the same context
  *                    after a refused call zck_clear_error() is called (as a caller would); 'x' marks a context whose
  *                    error could not be cleared
  *   alt <blob>       a second file; the op W replaces the bytes behind the descriptor with it and seeks to 0 (the file
@@ -68,6 +68,10 @@ static void run_one(int idx, FILE *out, void *vctx) {
                 if(ftruncate(fd, 0) != 0 || pwrite(fd, c->alt.p, c->alt.n, 0) != (ssize_t)c->alt.n) die("pin: rewrite");
                 real_lseek(fd, 0, SEEK_SET);
                 r = 1;
+                break;
+            case 'I':      /* the same context is given a file again (zck_init_adv_read on the same descriptor, position 0) */
+                real_lseek(fd, 0, SEEK_SET);
+                r = zck_init_adv_read(zck, fd);
                 break;
             case 'V': r = zck_validate_lead(zck); break;
             case 'R': r = zck_read_lead(zck); break;
